@@ -53,7 +53,7 @@ VARIABLES zid, fam, phase, sub, q, vs, ag,         \* part 1 (vs/ag: what the ru
 vars == <<zid, fam, phase, sub, q, vs, ag, idx, soaExp, cuts, clock, nadm, turn, last, synth>>
 View == <<zid, fam, phase, sub, q, vs, ag, idx, soaExp, cuts, clock, nadm, turn>>
 
-Types == {"A", "NS", "DS", "SOA", "CNAME", "DNAME"}
+Types == {"A", "TXT", "NS", "DS", "SOA", "CNAME", "DNAME"}   \* two ordinary data types: bitmaps of neighbouring owners differ
 Lab   == {"a", "b"}
 Star  == "*"
 
@@ -101,6 +101,8 @@ ZoneLib ==
     flat    |-> [optout |-> FALSE, rr |-> (<<>> :> Apex @@ <<"a">> :> {"A"} @@ <<"b">> :> {"CNAME"})],
     wild    |-> [optout |-> FALSE, rr |-> (<<>> :> Apex @@ <<"*">> :> {"A"} @@ <<"a">> :> {"A"}
                                            @@ <<"a", "*">> :> {"CNAME"})],
+    \* the wildcard and the owner whose NSEC covers the names it expands to hold DIFFERENT ordinary types
+    wildtypes |-> [optout |-> FALSE, rr |-> (<<>> :> Apex @@ <<"*">> :> {"A"} @@ <<"a">> :> {"TXT"})],
     ent     |-> [optout |-> FALSE, rr |-> (<<>> :> Apex @@ <<"a", "b">> :> {"A"} @@ <<"b">> :> {"A"}
                                            @@ <<"b", "a">> :> {"A"})],
     deleg   |-> [optout |-> FALSE, rr |-> (<<>> :> Apex @@ <<"a">> :> {"NS"} @@ <<"b">> :> {"A"}
